@@ -34,7 +34,8 @@ CLAIMED["C02"] = {
             "cross, & / + markers, comma-joined blocks) is the declarative expansion (C02_grammar_single_block, "
             "C02_grammar_comma_blocks). Model of convert_pn/valid_pn/generators compared with the implementation on grammar-"
             "directed, exhaustive-short and malformed strings every run; rows also compared with an independent "
-            "reference interpreter.",
+            "reference interpreter; the CCCBR-XML path (faked fetch) and the server-JSON path (selections delivered over the "
+            "simulated socket, judged row by row) are part of the check.",
     "design_ref": "DESIGN.md section 3, C02", "note": TB + " Blanks inside a notation string are covered by the tie only.",
     "technique": "Coq proof (induction over rows and over token sequences; vm_compute over the finite set of stages) + correspondence",
 }
@@ -131,7 +132,8 @@ CLAIMED["C09"] = {
             "doubled, a whole row ahead) with row turnovers, in every reachable state every human bell has struck in all "
             "previous rows and a bell no longer awaited in the current row has struck in it - proved about the model "
             "functions that mirror WaitForUserRhythm's expect_bell/on_bell_ring; plus: the polling loop has no time-out. "
-            "Tied to the code by closed-loop sessions under the virtual clock with adversarial human timing; oracle counts "
+            "Tied to the code by closed-loop sessions under the virtual clock with adversarial human timing (incl. a bell left at "
+            "backstroke at Look to and pulled twice); oracle counts "
             "human strikes from the simulated server's log at every Wheatley strike.",
     "design_ref": "DESIGN.md section 3, C09", "note": TBR + TB_GLUE + " Statement-level interleaving inside the arming loop is not "
             "covered (granularity H).",
@@ -203,7 +205,8 @@ CLAIMED["C10"] = {
             "never fail under their row invariant (C01); within a row the next tick finds its bell (row ends at "
             "min(len(row), tower size): also when the tower grows mid-row, after the fix); the wait for a human has no "
             "time-out and ends when the bell has rung (C09). Tied to the code by closed-loop bands (punctual, lagging, "
-            "erratic, early, absent), size changes during touches, both rhythms; oracle: no crash, every row completed, "
+            "erratic, early, absent, a ringer catching hold mid-touch), size changes during touches, compositions rung past "
+            "their end, server-mode sessions, both rhythms; oracle: no crash, every row completed, "
             "the bell after an awaited human within one interval (+30 ms), keep-going on schedule.",
     "design_ref": "DESIGN.md section 3, C10", "note": TBR + TB_GLUE + " Liveness under real OS scheduling is not modelled; the "
             "bounded-lag statement is checked by the sessions, not proved (partial). Statement-level races are findings.",
